@@ -77,6 +77,8 @@ def gen_script(rng, st, projs):
 
 
 def run_one(ctx, rng, cands, spec):
+    from .. import contracts
+    contracts.install()
     install_snapshot()
     from frontends.tui.controller import Controller
     k = rng.randint(2, 4)
@@ -192,6 +194,10 @@ def run_one(ctx, rng, cands, spec):
         if prob:
             ctx.violation('recorded-order', '`list *` item %d is %r' % (idx, l[:160]), dict(case, line_index=idx))
             return
+    from .. import contracts
+    for kind, msg in contracts.drain():
+        ctx.violation(kind, msg, case)
+    ctx.counters['contract_controller_invariant'] = contracts.COUNTS['controller_invariant']
     ctx.count('sessions')
     ctx.count('shown', n_shown)
     ctx.count('hidden', n_hidden)
